@@ -59,7 +59,7 @@ def gen(rng, tier, no, wide=False):
     off = rng.choice([0, 5, 1000])
     events = [[i, s[0] + off, s[1]] for i, s in zip(ids, spans)]
     rng.shuffle(events)      # row order of the frame
-    case = {"cfg": {"grid": g}, "ranks": {}, "events": events, "params": {"via_trace": rng.random() < 0.3}}
+    case = {"cfg": {"grid": g}, "ranks": {}, "events": events, "params": {"via_trace": rng.random() < 0.3, "tid": rng.choice([1, 1, 2, 3, 7, 100, 31234])}}
     return case
 
 
@@ -77,10 +77,10 @@ def wf(case) -> bool:
     return len(ev) > 0 and len({e[0] for e in ev}) == len(ev) and all(e[2] >= 0 and e[0] > 0 for e in ev) and _nested_ok(ev)
 
 
-def _frame(events):
+def _frame(events, tid=1):
     import pandas as pd
     df = pd.DataFrame({"index": [e[0] for e in events], "ts": [e[1] for e in events], "dur": [e[2] for e in events],
-                       "stream": -1, "index_correlation": -1, "pid": 1, "tid": 1, "name": 0, "cat": 0})
+                       "stream": -1, "index_correlation": -1, "pid": 1, "tid": tid, "name": 0, "cat": 0})
     return df.set_index("index", drop=False)
 
 
@@ -105,18 +105,19 @@ def observe(case):
     from hta.common import trace_call_stack as NEW
     from hta.common.trace_symbol_table import TraceSymbolTable
     ev = case["events"]
+    tid = case["params"].get("tid", 1)
     canon: Dict[str, Any] = {}
     try:
-        df = _frame(ev)
-        old = OLD.CallStackGraph(df, OLD.CallStackIdentity(0, 1, 1))
+        df = _frame(ev, tid)
+        old = OLD.CallStackGraph(df, OLD.CallStackIdentity(0, 1, tid))
         canon["old"] = _canon_nodes(old.get_nodes(), None)
     except Exception as e:  # noqa: BLE001
         canon["old"] = "raises " + C.exc_name(e) + ": " + str(e)[:80]
     try:
-        df = _frame(ev)
+        df = _frame(ev, tid)
         st = TraceSymbolTable()
         st.add_symbols(["x"])
-        new = NEW.CallStackGraph(df, NEW.CallStackIdentity(0, 1, 1), pd.DataFrame(columns=["cpu_index", "gpu_index"]), df, st)
+        new = NEW.CallStackGraph(df, NEW.CallStackIdentity(0, 1, tid), pd.DataFrame(columns=["cpu_index", "gpu_index"]), df, st)
         canon["new"] = _canon_nodes(new.get_nodes(), None)
     except Exception as e:  # noqa: BLE001
         canon["new"] = "raises " + C.exc_name(e) + ": " + str(e)[:80]
@@ -146,7 +147,7 @@ def observe(case):
         rows = []
         for i in range(maxid + 1):
             if i in by_id:
-                rows.append({"ph": "X", "cat": "cpu_op", "name": "aten::op", "pid": 1, "tid": 1, "ts": by_id[i][1], "dur": by_id[i][2],
+                rows.append({"ph": "X", "cat": "cpu_op", "name": "aten::op", "pid": 1, "tid": tid, "ts": by_id[i][1], "dur": by_id[i][2],
                              "args": {"External id": i}})
             else:
                 rows.append({"ph": "M", "name": "filler", "pid": 1, "tid": 1, "ts": 0, "args": {}})
